@@ -22,7 +22,7 @@ def crash_part(ctx, name, traces, maxs, maxp, mode=None, report=None):
         sf = ctx.path(name + "_replay.ndjson"); open(sf, "w").write(json.dumps(dict(script=d["script"])) + "\n")
     else:
         sf, n = c03.generate(ctx, name, traces, 14, ctx.seed + 7, DumpEvery=3)
-    cf = ctx.path(name + "_cfg.json"); json.dump(dict(c03.HCFG, network=False), open(cf, "w"))
+    cf = ctx.path(name + "_cfg.json"); json.dump(dict(c03.HCFG, network=False, maxTxs=4 << 20), open(cf, "w"))
     of = ctx.path(name + "_res.json"); tf = ctx.path(name + "_trace.ndjson")
     p = ctx.run([binp, sf, cf, of, tf, str(maxs), str(maxp)] + ([mode] if mode else []), timeout=3000)
     if not os.path.exists(of):
